@@ -351,7 +351,15 @@ fn mutants(idx: u64, rng: &mut Rng, mon: &mut Mon) {
         }
         3 => {
             // replace one scalar value by another type
-            let repl = *rng.pick(&["abc", "[1, 2]", "{x: 1}", "~", "true", "'0.5'", "1e400", "-", ".nan", "deg(", "deg(x)", "deg()"]);
+            // (valid UTF-8 with multi-byte characters at every byte offset: unit signs, decimal commas,
+            // full-width digits, as a user pasting "-90°" or "π/2" into the file would produce)
+            let unicode: String = {
+                let alphabet = ['°', '€', 'π', '½', 'é', '∞', '𝜋', '９', 'a', '1', '-', '(', ')', '.', 'd', 'e', 'g', '9', '0'];
+                let body: String = (0..(1 + rng.usize(9))).map(|_| *rng.pick(&alphabet)).collect();
+                match rng.usize(3) { 0 => format!("\"{}\"", body), 1 => format!("deg({})", body), _ => body }
+            };
+            let fixed = *rng.pick(&["abc", "[1, 2]", "{x: 1}", "~", "true", "'0.5'", "1e400", "-", ".nan", "deg(", "deg(x)", "deg()", "-90°", "90°", "abc€de", "\"π/2 \"", "deg(90°)", "DEG(90)", "1,5", "½"]);
+            let repl: &str = if rng.bool(0.4) { mon.count("mutants.multibyte_scalars"); &unicode } else { fixed };
             let mut lines: Vec<String> = base.lines().map(|s| s.to_string()).collect();
             let cand: Vec<usize> = lines.iter().enumerate().filter(|(_, l)| l.contains(": ")).map(|(i, _)| i).collect();
             if !cand.is_empty() {
